@@ -305,7 +305,33 @@ def step_check(case):
             nbad += 1
             if nbad < 3:
                 v.append(("fronts:step", "train %r with step %r: events wrong" % (t, step)))
-    return Res(v, o=case, tr=5 * 3 ** n)
+    # the same trains as one 2-D array, along either axis: option x axis (step thresholds and analog mode on samples-by-lines arrays as the reader returns them)
+    M = np.array(list(itertools.product((0.0, 1.0, 2.0), repeat=n)))
+    exp = {"rises-step": [], "falls-step": [], "rises-analog": [], "falls-analog": []}
+    for r, t in enumerate(M.tolist()):
+        ei, ep = _ref_fronts(t, step)
+        exp["rises-step"] += [(r, a) for a, p in zip(ei, ep) if p > 0]
+        exp["falls-step"] += [(r, a) for a, p in zip(ei, ep) if p < 0]
+        bi, bp = _ref_fronts([1.0 if x > step else 0.0 for x in t], 1)
+        exp["rises-analog"] += [(r, a) for a, p in zip(bi, bp) if p > 0]
+        ni, npol = _ref_fronts([1.0 if -x > -step else 0.0 for x in t], 1)
+        exp["falls-analog"] += [(r, a) for a, p in zip(ni, npol) if p > 0]
+    n2 = 0
+    for axis, X in ((1, M), (-1, M), (0, M.T.copy()), (-2, M.T.copy())):
+        calls = {"rises-step": lambda: utils.rises(X, axis=axis, step=step), "falls-step": lambda: utils.falls(X, axis=axis, step=-step),
+                 "rises-analog": lambda: utils.rises(X, axis=axis, step=step, analog=True), "falls-analog": lambda: utils.falls(X, axis=axis, step=step, analog=True)}
+        for name, call in calls.items():
+            n2 += 1
+            try:
+                arr = np.asarray(call())
+                got = sorted(zip(arr[1].tolist(), arr[0].tolist())) if axis in (0, -2) else sorted(zip(arr[0].tolist(), arr[1].tolist()))
+            except Exception as e:
+                v.append(("fronts:2d:%s:exc" % name, "%s on a 2-D array along axis %d (step %r): %s: %s" % (name, axis, step, type(e).__name__, e)))
+                continue
+            if got != sorted(exp[name]):
+                v.append(("fronts:2d:%s" % name, "%s on all %d-sample trains over {0,1,2} as one 2-D array along axis %d (step %r): %d events, %d expected, or at other (line, sample) places"
+                          % (name, n, axis, step, len(got), len(exp[name]))))
+    return Res(v, o=case, tr=5 * 3 ** n + n2)
 
 
 # ------------------------------------------------------------------ end to end: trains written on each line are recovered
